@@ -73,7 +73,8 @@ def ensure_build(repo=None):
     t0 = time.time()
     with open(os.path.join(CACHE, ".lock"), "w") as lk:
         fcntl.flock(lk, fcntl.LOCK_EX)
-        key = native_hash(repo)
+        nh = native_hash(repo)
+        key = nh + "-" + hashlib.sha256(os.path.realpath(repo).encode()).hexdigest()[:6]
         dst = os.path.join(CACHE, key)
         os.makedirs(dst, exist_ok=True)
         r = sh(["rsync", "-a", "--delete",
@@ -85,6 +86,14 @@ def ensure_build(repo=None):
         if r.returncode != 0:
             raise RuntimeError("rsync failed: " + r.stderr)
         marker = os.path.join(dst, ".built")
+        if not os.path.exists(marker):
+            # same native sources already compiled for another tree location: reuse its extension modules
+            for d in os.listdir(CACHE):
+                sib = os.path.join(CACHE, d)
+                if d != key and d.startswith(nh + "-") and os.path.exists(os.path.join(sib, ".built")):
+                    sh(["rsync", "-a", "--include", "*/", "--include", "*.so", "--exclude", "*", sib + "/", dst + "/"])
+                    open(marker, "w").write(key)
+                    break
         if not os.path.exists(marker):
             log(f"[build] compiling extension modules for native hash {key} ...")
             env = dict(os.environ, CYTHON_NTHREADS="12", PIP_NO_INDEX="1")
@@ -100,7 +109,7 @@ def ensure_build(repo=None):
             log(f"[build] done in {time.time()-t0:.0f}s")
         # keep only the few most recently used builds
         os.utime(marker)
-        keep = int(os.environ.get("VERIF_KEEP_BUILDS", "2"))
+        keep = int(os.environ.get("VERIF_KEEP_BUILDS", "8"))
         ds = [d for d in os.listdir(CACHE) if os.path.isdir(os.path.join(CACHE, d))]
         ds.sort(key=lambda d: os.path.getmtime(os.path.join(CACHE, d, ".built")) if os.path.exists(os.path.join(CACHE, d, ".built")) else 0,
                 reverse=True)
